@@ -220,6 +220,21 @@ func (cv *ConfigValue) NamespacedName() (namespace, name string, err error) {
 	return "", "", fmt.Errorf("a globally configured resource name is missing the namespace: %s", cv.Value)
 }
 
+// defaultNamespace returns the namespace a resource name declared in cv is
+// relative to: the namespace of the annotated resource, so the cache can deny
+// a name that points to another namespace. A globally configured value has no
+// source and must itself carry the namespace, in this case there is no default
+// namespace and nothing to deny.
+func (cv *ConfigValue) defaultNamespace() (string, error) {
+	if cv.Source != nil {
+		return cv.Source.Namespace, nil
+	}
+	if !strings.Contains(cv.Value, "/") {
+		return "", fmt.Errorf("a globally configured resource name is missing the namespace: %s", cv.Value)
+	}
+	return "", nil
+}
+
 // ToLower ...
 func (cv *ConfigValue) ToLower() string {
 	return strings.ToLower(cv.Value)
